@@ -55,6 +55,9 @@ type Agg struct {
 type Ptr struct {
 	Base *Agg
 	Idx  int
+	// Sym != nil: the element Base.V[Idx+Sym] with Sym in [0,N) (symbolic index, scalar elements)
+	Sym *Term
+	N   int
 	// Glob is set for poisoned globals of packages whose init was not run
 	Poison string
 }
